@@ -83,7 +83,7 @@ Definition observe (o : oracles) (url : str) : list str :=
       [ [1]; b_str (u_network i); u_raw i; u_scheme i; nn (u_authority i); u_path i; nn (u_query i);
         nn (u_fragment i); nn (u_userinfo i); nn (u_username i); nn (u_password i); nn (u_host i);
         nn (u_hostname i); nn [u_port i]; nn (u_resource i);
-        r_str (url_of i); r_str (hostname_with_port i);
+        r_str (url_of (enc_of o) i); r_str (hostname_with_port i);
         match is_port_default i with None => [NONE] | Some b => b_str b end;
         nn (b_str (is_ipv6 i));
         fst (split_path i); snd (split_path i);
@@ -134,3 +134,22 @@ Definition o_none : oracles :=
   {| o_enc := None; o_lower := []; o_idna := []; o_ipv6 := []; o_int := []; o_unq := [] |}.
 Definition normalize_hostname_c (s : str) : result str := normalize_hostname (idna_of o_none) s.
 Definition normalize_ipv4_c (s : str) : option str := normalize_ipv4_address (int_of o_none) s.
+
+(* ---- urljoin / urljoin_safe: the library join is a table of the calls the real
+   code made (arguments -> result or failure kind) ---- *)
+Fixpoint lookup2 {B} (t : list (str * str * B)) (a b : str) : option B :=
+  match t with
+  | [] => None
+  | (k1, k2, v) :: r => if str_eqb k1 a && str_eqb k2 b then Some v else lookup2 r a b
+  end.
+Definition lib_of (t : list (str * str * result str)) (b u : str) : result str :=
+  match lookup2 t b u with Some r => r | None => Ok MISS end.
+Definition observe_join (t : list (str * str * result str)) (b u : str) : list str :=
+  [ r_str (urljoin (lib_of t) b u);
+    match urljoin_safe (lib_of t) b u with
+    | Ok None => [NONE] | Ok (Some s) => s | Err k => [ERRM; kind_code k]
+    end ].
+Definition kind_of_code (n : N) : ekind :=
+  if n =? 1 then ValueErr else if n =? 2 then UnicodeErr else if n =? 3 then AddressValueErr
+  else if n =? 4 then LookupErr else if n =? 5 then IndexErr else if n =? 6 then KeyErr
+  else if n =? 7 then AssertErr else if n =? 8 then RecursionErr else if n =? 9 then TypeErr else AttributeErr.
